@@ -288,6 +288,19 @@ fn check_fault(ctx: &mut Ctx, rs: &RefSpec, doc: &Vec<Node>, f: &Fault, want_ite
                 ctx.violation(&format!("fault-{:?}/tolerated-but-parse-did-not-proceed", f.class), &d, &obs.short());
             }
         }
+        // the tolerated set is what the LAST allow_errors call says, whatever was configured before it
+        for earlier in 0..8u8 {
+            if earlier == allow {
+                continue;
+            }
+            let again = crate::obs::parse_slice_reconfigured::<V>(&f.bytes, &cfg, earlier);
+            ctx.transitions += again.items.len() as u64 + 3;
+            ctx.count("reconfigured_parses", 1);
+            if again != obs {
+                ctx.violation("reconfiguration/earlier-allow_errors-call-shows-through", &d, &format!("allow_errors({}) then allow_errors({}) gives {} | allow_errors({}) alone gives {}", earlier, allow, again.short(), allow, obs.short()));
+                break;
+            }
+        }
         ctx.validated += 1;
         ctx.leave();
     }
@@ -297,10 +310,10 @@ pub fn run(ctx: &mut Ctx) {
     let rs = v_refspec();
     crate::spec::assert_spec_matches::<V>(&rs);
     let n = ctx.tier.pick(5, 6);
-    ctx.meta("rule", "cases: (input, tolerance subset, size limit). (a) every known-size document of T∘E with one injected fault of each class at every element (unknown id of the same length; specification id of the same length/kind not allowed there; size bumped one byte past the parent's end; declared size above the limit at root level; the oversize fault also through unknown-size masters lying between the child and the known-size ancestor) under all 8 tolerance subsets: not tolerated => exactly the items before the fault, then that class's error kind with the element's offset/id/size (another applicable class accepted); tolerated => that kind never occurs and the parse proceeds. (b) every Σ string up to length n, every document and every single mutation x 8 subsets x limits {default, 5, none}: no raw tag unless unknown ids are tolerated, no error kind of a tolerated class, no size-limit error once the limit is removed, and for inputs starting at a root element the strict Ok items are a prefix of the Ok items under every other subset; header-only streams declaring > 4 GB are rejected with InvalidTagSize under every subset while the limit is untouched. Non-trivial: inputs on which two configurations disagree, and all injected faults.");
+    ctx.meta("rule", "cases: (input, tolerance subset, size limit). (a) every known-size document of T∘E with one injected fault of each class at every element (unknown id of the same length; specification id of the same length/kind not allowed there; size bumped one byte past the parent's end; declared size above the limit at root level; the oversize fault also through unknown-size masters lying between the child and the known-size ancestor) under all 8 tolerance subsets: not tolerated => exactly the items before the fault, then that class's error kind with the element's offset/id/size (another applicable class accepted); tolerated => that kind never occurs and the parse proceeds; and the same input parsed after allow_errors(E) followed by allow_errors(A), for every other subset E, equals the parse under allow_errors(A) alone. (b) every Σ string up to length n, every document and every single mutation x 8 subsets x limits {default, 5, none}: no raw tag unless unknown ids are tolerated, no error kind of a tolerated class, no size-limit error once the limit is removed, and for inputs starting at a root element the strict Ok items are a prefix of the Ok items under every other subset; header-only streams declaring > 4 GB are rejected with InvalidTagSize under every subset while the limit is untouched. Non-trivial: inputs on which two configurations disagree, and all injected faults.");
     ctx.meta("bounds", &format!("Σ* length <= {}; documents <= {} elements; all single faults / mutations", n, ctx.tier.pick(4, 5)));
     ctx.meta("assumptions", "HierarchyError carries no position: its found_tag_id is compared instead");
-    for c in ["fault_Oversized_through_unknown_size_master", "fault_Id_strict", "fault_Id_tolerated", "fault_Hier_strict", "fault_Hier_tolerated", "fault_Oversized_strict", "fault_Oversized_tolerated", "fault_Limit", "prefix_comparisons", "inputs_on_which_configurations_disagree", "default_limit_rejections"] {
+    for c in ["fault_Oversized_through_unknown_size_master", "fault_Id_strict", "fault_Id_tolerated", "fault_Hier_strict", "fault_Hier_tolerated", "fault_Oversized_strict", "fault_Oversized_tolerated", "fault_Limit", "prefix_comparisons", "inputs_on_which_configurations_disagree", "default_limit_rejections", "reconfigured_parses"] {
         ctx.expect_nonzero(c);
     }
     // (a)
